@@ -277,6 +277,9 @@ func runCheck(repo, verif, prop, tier, only string, verbose, writeEvidence bool)
 	for _, n := range order {
 		a := aggs[n]
 		total++
+		if a.Kind == "canary" && len(a.Failed) < a.Instances {
+			a.Failed = nil // some returning path is feasible and cannot prove false: not vacuous
+		}
 		if len(a.Failed) == 0 {
 			discharged++
 			continue
